@@ -16,11 +16,8 @@ import (
 )
 
 func backgroundCompaction(db *DB) {
-	defer func() {
-		db.doneCompactionChannel <- true
-	}()
-
 	if !db.enableCompactions {
+		db.doneCompactionChannel <- true
 		return
 	}
 
@@ -50,8 +47,11 @@ func backgroundCompaction(db *DB) {
 	}(db)
 
 	if err != nil {
+		// as in the flusher: no deferred send on the unbuffered channel in the way of the panic
 		log.Panicf("error while compacting, error was %v", err)
 	}
+
+	db.doneCompactionChannel <- true
 }
 
 func executeCompaction(db *DB) (compactionMetadata *proto.CompactionMetadata, err error) {
